@@ -10,6 +10,8 @@ spec fn nfa_tree<V>(n: NfaBuilder<u8, V>) -> bool {
             2 <= nfa_edges(n, s)[c] < len && s < nfa_edges(n, s)[c]
     &&& forall|t: int| 2 <= t < len ==> nfa_parent_ok(n, t, #[trigger] nfa_parent(n, t))
     &&& forall|s: int| 0 <= s < len ==> (#[trigger] n.states@[s]).fail < len
+    // the creating edge is the only edge into a state
+    &&& forall|s: int, c: u8| 0 <= s < len && #[trigger] nfa_edges(n, s).contains_key(c) ==> nfa_parent(n, nfa_edges(n, s)[c] as int) == (s, c)
 }
 // witness of "every state >= 2 has a parent" (the edge that created it)
 spec fn nfa_parent<V>(n: NfaBuilder<u8, V>, t: int) -> (int, u8) {
@@ -51,3 +53,49 @@ proof fn lemma_iter_keys_distinct(m: Map<u8, u32>, rem: Seq<(&u8, &u32)>)
         }
     }
 }
+
+// an edge of the array: slot x has a BASE and the slot BASE ^ c carries CHECK == c (what child_index_unchecked tests)
+spec fn bw_edge(st: Seq<State>, x: int, c: u8) -> bool {
+    st[x].base.is_some() && st_check(st[(st[x].base.unwrap()@ ^ (c as u32)) as int]) == c
+}
+
+// what build_double_array establishes: the array encodes the NFA through the placement map idmap
+#[verifier::opaque]
+spec fn bw_encodes<V>(st: Seq<State>, n: NfaBuilder<u8, V>, idmap: Seq<u32>) -> bool {
+    let len = n.states@.len();
+    &&& idmap.len() == len && idmap[0] == 0
+    &&& forall|t: int| 0 <= t < len && t != 1 ==> (#[trigger] idmap[t]) < st.len() && idmap[t] != 1
+    &&& forall|t1: int, t2: int| 0 <= t1 < len && 0 <= t2 < len && t1 != 1 && t2 != 1 && #[trigger] idmap[t1] == #[trigger] idmap[t2] ==> t1 == t2
+    // every NFA edge is an edge of the array, leading to the child's slot
+    &&& forall|s: int, c: u8| 0 <= s < len && s != 1 && #[trigger] nfa_edges(n, s).contains_key(c) ==> {
+            &&& bw_edge(st, idmap[s] as int, c)
+            &&& idmap[nfa_edges(n, s)[c] as int] == st[idmap[s] as int].base.unwrap()@ ^ (c as u32)
+        }
+    // and the array has no other edge out of a state slot
+    &&& forall|s: int, c: u8| 0 <= s < len && s != 1 && #[trigger] bw_edge(st, idmap[s] as int, c) ==> nfa_edges(n, s).contains_key(c)
+    // fail links and output positions are copied through idmap
+    &&& forall|s: int| 0 <= s < len && s != 1 ==> (#[trigger] st[idmap[s] as int]).fail == (if n.states@[s].fail == 1 { 1u32 } else { idmap[n.states@[s].fail as int] })
+            && st_opos(st[idmap[s] as int]) == opt_u32(n.states@[s].output_pos)
+}
+
+proof fn lemma_benc_basic<V>(st: Seq<State>, n: NfaBuilder<u8, V>, idmap: Seq<u32>, t: int)
+    requires bw_encodes(st, n, idmap), 0 <= t < n.states@.len(), t != 1,
+    ensures idmap.len() == n.states@.len(), idmap[0] == 0, idmap[t] < st.len(), idmap[t] != 1,
+        st[idmap[t] as int].fail == (if n.states@[t].fail == 1 { 1u32 } else { idmap[n.states@[t].fail as int] }),
+        st_opos(st[idmap[t] as int]) == opt_u32(n.states@[t].output_pos),
+{ reveal(bw_encodes); }
+
+proof fn lemma_benc_inj<V>(st: Seq<State>, n: NfaBuilder<u8, V>, idmap: Seq<u32>, t1: int, t2: int)
+    requires bw_encodes(st, n, idmap), 0 <= t1 < n.states@.len(), 0 <= t2 < n.states@.len(), t1 != 1, t2 != 1, idmap[t1] == idmap[t2],
+    ensures t1 == t2,
+{ reveal(bw_encodes); }
+
+proof fn lemma_benc_edge<V>(st: Seq<State>, n: NfaBuilder<u8, V>, idmap: Seq<u32>, s: int, c: u8)
+    requires bw_encodes(st, n, idmap), 0 <= s < n.states@.len(), s != 1, nfa_edges(n, s).contains_key(c),
+    ensures bw_edge(st, idmap[s] as int, c), idmap[nfa_edges(n, s)[c] as int] == st[idmap[s] as int].base.unwrap()@ ^ (c as u32),
+{ reveal(bw_encodes); }
+
+proof fn lemma_benc_nospur<V>(st: Seq<State>, n: NfaBuilder<u8, V>, idmap: Seq<u32>, s: int, c: u8)
+    requires bw_encodes(st, n, idmap), 0 <= s < n.states@.len(), s != 1, bw_edge(st, idmap[s] as int, c),
+    ensures nfa_edges(n, s).contains_key(c),
+{ reveal(bw_encodes); }
